@@ -21,6 +21,8 @@ pub trait El:
     fn nan() -> Self;
     fn next_up(self) -> Self;
     fn next_down(self) -> Self;
+    /// inverse of `pay`
+    fn parse(s: &str) -> Self;
 }
 
 impl El for f64 {
@@ -48,6 +50,9 @@ impl El for f64 {
     fn next_down(self) -> Self {
         f64::next_down(self)
     }
+    fn parse(s: &str) -> Self {
+        f64::from_bits(u64::from_str_radix(s, 16).unwrap_or(0))
+    }
 }
 
 impl El for f32 {
@@ -73,6 +78,9 @@ impl El for f32 {
     }
     fn next_down(self) -> Self {
         f32::next_down(self)
+    }
+    fn parse(s: &str) -> Self {
+        f32::from_bits(u32::from_str_radix(s, 16).unwrap_or(0))
     }
 }
 
@@ -101,6 +109,9 @@ macro_rules! int_el {
             }
             fn next_down(self) -> Self {
                 self - 1
+            }
+            fn parse(s: &str) -> Self {
+                s.parse().unwrap_or(0)
             }
         }
     };
